@@ -1,11 +1,11 @@
 /-
   Props/C11.lean — property C11: "nsync_wait_n reports a ready object, or a real timeout, and cleans up."
 
-  All theorems are about `Reachable s` of the WaitN acceptor (Model/WaitN.lean): every number of
-  callers, wakers, objects (1 ≤ count, stack and heap bookkeeping), every interleaving, every deadline
-  and every sequence of ticks.  Trusted: the objects' mutexes are locks (C01/C02), the queues are
-  sequences (C17), the semaphores are counting semaphores (C12).  Contract (explicit `Reject`s of the
-  model): no increment of a counter from zero after a wait has been called.
+  All theorems are about `Reachable s` of the WaitN acceptor (Model/WaitN.lean, the code AFTER the repair of
+  defect F3 in cv.c): every number of callers, wakers, objects (1 ≤ count, stack and heap bookkeeping), every
+  interleaving, every deadline and every sequence of ticks.  Trusted: the objects' mutexes are locks (C01/C02),
+  the queues are sequences (C17), the semaphores are counting semaphores (C12).  Contract (explicit
+  `Reject`s of the model): no increment of a counter from zero after a wait has been called.
 
   What "ready" means in the code (wait.c + the three waitables):
   * note:    NOTIFIED_TIME (n) <= 0 under note_mu, after nsync_note_notified_deadline_ has notified the
@@ -15,32 +15,23 @@
              read through NOTIFIED_TIME by the library; the harness oracles that read the flag
              directly report it, see tools/gen_waitn.py).  `noteReady` = notified ∨ deadline passed.
   * counter: value 0 observed (stable once a wait has been called: API contract).
-  * cv:      `waiting == 0` observed under the cv spinlock by cv_dequeue.  This is where defect F3 sits:
-             `waiting != 0` does not imply "still in the queue" (a signaller unlinks under the spinlock
-             and clears `waiting` after dropping it).
+  * cv:      cv_dequeue returned 0: it read `waiting == 0` under the cv spinlock, or it read `waiting != 0`,
+             did not find the record on pcv->waiters and waited for `waiting == 0`.  In both cases a
+             signaller had unlinked the record for this call (ghost `unl = waker`, recorded in the frame's
+             ghost list `deqUnl` at the return of the dequeue call — the record itself may be reused by
+             another thread's call between `free` and the return when count > 4).
 
-  PARTIAL results (each with the full statement as `def …_full`, the proved `…_partial`, and a proof of
-  the NEGATION of the full statement on a concrete accepted trace, by `decide`):
-  * `C11_index_ready`: proved for note and counter objects, on all runs (`C11_index_ready_partial`).  For
-    cv objects only `C11_index_ready_first` is proved (the index is the least one whose dequeue read
-    `waiting == 0`); "…because a waker unlinked the record", restricted to runs with `s.f3 = false`, is NOT
-    proved (missing: an invariant tying `waiting = 0` of a cv record to its ghost `unl = waker`).  The
-    full statement is false in general: `Example.reuse` (the next call of the same thread reuses the stack slot, the stale waker clears its `waiting`,
-    the call reports a cv that nobody signalled and returns with its record still in the cv queue).
-  * `C11_timeout` ("returns count only after the deadline, every dequeue said not ready"): proved as
-    stated; the stronger `C11_timeout_full` (… and no record of the call was unlinked by a waker, i.e. no
-    signal was swallowed) is false: `Example.f3ret`.
-  * `C11_cleanup`: proved (`C11_cleanup_partial`) for runs on which F3 has not struck: a record that dies (return
-    of a call with count <= 4, `free` of the heap array) is in no queue, in no signaller's wake list, and no
-    note / counter waker owes it a post.  The full statement (… and no waker at all is in flight on it) is
-    false even without F3: `Example.window2` (the signaller's `nsync_mu_semaphore_v (p_nw->sem)` comes after
-    `waiting := 0`, the caller may be gone by then).
+  STATUS.  Proved as stated, for all three kinds of objects: `C11_index_ready`, `C11_timeout`,
+  `C11_short_circuit`, `C11_cleanup` (+ `C11_cleanup_ret`), `C11_mutex` (+ `C11_mutex_marks`), `C11_heap_path`.
   * `C11_no_oversleep`: NOT PROVED (no partial result); the statement is kept as `C11_no_oversleep_full`.
     Missing: an accounting invariant for the call's semaphore (every cleared `waiting` is followed by a V
-    that is only consumed by the owner's own `pd_ret`).
-  `C11_mutex`, `C11_heap_path`, `C11_short_circuit`, `C11_timeout` are proved as stated.
+    that is only consumed by the owner's own `pd_ret`, and a scan that sees a cleared record does not sleep).
+  The interleaving of defect F3 (caller times out between a signaller's unlink and its `waiting := 0`) is an
+  `example` below: the old behaviour (cv_dequeue "removes" the record and reports a timeout) is REJECTED,
+  the repaired behaviour (wait for the waker, return the cv's index) is accepted.
 -/
 import NsyncVerif.Proofs.WaitNAnn
+import NsyncVerif.Proofs.WaitNDq2
 
 set_option linter.unusedVariables false
 
@@ -49,20 +40,13 @@ namespace WaitN
 /-! ### ready index -/
 
 /-- object i of t's call is ready (notified / expired note, counter at zero, cv record unlinked by a
-    waker) -/
+    signaller when its dequeue call returned) -/
 def readyFor (s : State) (t : Tid) (i : Nat) : Prop :=
   match (s.fr t).objs[i]? with
   | some (.note n) => noteReady s n
   | some (.ctr c) => (s.obj (.ctr c)).value = 0
-  | some (.cv _) => match (s.fr t).recs[i]? with
-    | some r => (s.rcd r).unl = .waker
-    | none => False
+  | some (.cv _) => (s.fr t).deqUnl[i]? = some .waker
   | none => False
-
-/-- FULL statement (false on the current code, defect F3): the returned index is a ready object. -/
-def C11_index_ready_full : Prop :=
-  ∀ (s s' : State) (t : Tid) (r : Nat) (nested : Bool), Reachable s →
-    step s (.thr t (.retWaitN r nested)) = .ok s' → r < (s.fr t).count → readyFor s t r
 
 /-- what the return value of an accepted `ret nsync_wait_n r` is -/
 theorem ret_facts {s s' : State} {t : Tid} {r : Nat} {nested : Bool} (hr : Reachable s)
@@ -71,22 +55,43 @@ theorem ret_facts {s s' : State} {t : Tid} {r : Nat} {nested : Bool} (hr : Reach
   have hpc := (ret_pc hs).1
   exact ⟨hpc, hpc ▸ linv_of_reachable hr t, by have := tf_of_reachable hr t; rw [hpc] at this; exact this⟩
 
-/-- PARTIAL (note and counter objects): `ret nsync_wait_n i` with i < count is accepted only if object i
-    is a note that is notified or whose deadline has passed, or a counter whose value is 0. -/
-theorem C11_index_ready_partial {s s' : State} {t : Tid} {r : Nat} {nested : Bool} (hr : Reachable s)
-    (hs : step s (.thr t (.retWaitN r nested)) = .ok s') (hlt : r < (s.fr t).count)
-    (hncv : ¬ isCvAt (s.fr t) r) : readyFor s t r := by
+/-- `ret nsync_wait_n i` with i < count is accepted only if object i is a note that is notified or whose
+    deadline has passed, a counter whose value is 0, or a condition variable whose record a signaller had
+    unlinked when cv_dequeue returned. -/
+theorem C11_index_ready {s s' : State} {t : Tid} {r : Nat} {nested : Bool} (hr : Reachable s)
+    (hs : step s (.thr t (.retWaitN r nested)) = .ok s') (hlt : r < (s.fr t).count) : readyFor s t r := by
   obtain ⟨_, hl, hp⟩ := ret_facts hr hs
   have hrr : r = (s.fr t).ready := hl.1
-  have := hp.rdy (hrr ▸ hlt) (hrr ▸ hncv)
-  rw [← hrr] at this
-  unfold sReady at this
   unfold readyFor
-  split at this
-  · rename_i n hn; rw [hn]; exact this
-  · rename_i c hc; rw [hc]; exact this.1
-  · rename_i c hc; exact absurd ⟨c, hc⟩ hncv
-  · exact this.elim
+  cases ho : (s.fr t).objs[r]? with
+  | none =>
+    have : r < (s.fr t).objs.length := hlt
+    rw [List.getElem?_eq_getElem this] at ho; cases ho
+  | some o =>
+    cases o with
+    | cv c =>
+      simp only
+      have hcv : isCvAt (s.fr t) (s.fr t).ready := ⟨c, hrr ▸ ho⟩
+      have hne := hp.cvr (hrr ▸ hlt) hcv
+      rcases hl.2 with ⟨hf, _, _⟩ | ⟨hpost, _⟩
+      · exact absurd hf.recs hne
+      · have h1 := (hpost.rdy.first (hrr ▸ hlt)).1
+        rw [hrr]
+        exact (dui_of_reachable hr).cv t _ c (hrr ▸ ho) h1
+    | note n =>
+      simp only
+      have := hp.rdy (hrr ▸ hlt) (by rintro ⟨c, hc⟩; rw [← hrr, ho] at hc; cases hc)
+      rw [← hrr] at this
+      unfold sReady at this
+      rw [ho] at this
+      exact this
+    | ctr k =>
+      simp only
+      have := hp.rdy (hrr ▸ hlt) (by rintro ⟨c, hc⟩; rw [← hrr, ho] at hc; cases hc)
+      rw [← hrr] at this
+      unfold sReady at this
+      rw [ho] at this
+      exact this.1
 
 /-- every kind of object, cv included: after a sleep the returned index is the least one whose dequeue call
     reported "no longer enqueued" (for a cv: cv_dequeue read `waiting == 0` under the cv's spinlock). -/
@@ -127,13 +132,6 @@ theorem C11_timeout {s s' : State} {t : Tid} {r : Nat} {nested : Bool} (hr : Rea
         cases this
     refine ⟨hp.tmo hwhy, hpost.dlen, ?_, hall⟩
     intro h0; have := hpost.npos; rw [h0] at this; exact absurd this (Nat.lt_irrefl _)
-
-/-- FULL statement (false, defect F3): … and no record of the call was unlinked by a waker, i.e. the
-    call did not swallow a signal / notification while reporting a timeout. -/
-def C11_timeout_full : Prop :=
-  ∀ (s s' : State) (t : Tid) (r : Nat) (nested : Bool), Reachable s →
-    step s (.thr t (.retWaitN r nested)) = .ok s' → r = (s.fr t).count →
-    ∀ x ∈ (s.fr t).recs, (s.rcd x).unl ≠ .waker
 
 /-- the `abs_deadline <= 0` short-circuit: a caller whose deadline is not after time zero never
     leaves the first poll loop — no record, no allocation, no semaphore wait. -/
@@ -257,12 +255,14 @@ theorem C11_heap_path {s : State} {t : Tid} {r : Nat} (hr : Reachable s) (hp : s
 
 /-! ### cleanup -/
 
-/-- PARTIAL (runs on which F3 has not struck): a record whose lifetime ends in this step — the return of a
-    call with count <= 4, or the `free` of the heap array — belongs to the stepping caller, is in no object's
-    queue and in no signaller's wake list, and no note / counter waker is between removing it and posting. -/
-theorem C11_cleanup_partial {s s' : State} {ev : Event} {r : Rid} (hr : Reachable s) (hs : step s ev = .ok s')
-    (hf3 : s'.f3 = false) (hl : registered s r) (hd : ¬ registered s' r) :
+/-- a record whose lifetime ends in this step — the return of a call with count <= 4, or the `free` of the
+    heap array — belongs to the stepping caller, whose dequeue call for it has returned; it is in no object's
+    queue, no signaller is between unlinking it and clearing its `waiting`, and no note / counter waker is
+    between removing it and posting. -/
+theorem C11_cleanup {s s' : State} {ev : Event} {r : Rid} (hr : Reachable s) (hs : step s ev = .ok s')
+    (hl : registered s r) (hd : ¬ registered s' r) :
     (∃ t e, ev = .thr t e ∧ (s.rcd r).owner = t ∧ r ∈ (s.fr t).recs ∧ (s.pc t = .wFree ∨ ∃ r0, s.pc t = .wRet r0))
+    ∧ (s.rcd r).deqd = true
     ∧ (∀ o, r ∉ (s.obj o).queue)
     ∧ (∀ u c l, wk (s.pc u) = some (c, l) → r ∉ pend (s.post u) l)
     ∧ (∀ u, s.post u = some r → (wk (s.pc u)).isSome = true) := by
@@ -270,18 +270,33 @@ theorem C11_cleanup_partial {s s' : State} {ev : Event} {r : Rid} (hr : Reachabl
     cases hx : (s'.rcd r).live with
     | false => rfl
     | true => exact absurd hx hd
-  obtain ⟨t, e, h1, h2, h3, h4, h5, _⟩ := dies_facts hr hs hf3 hl hd'
-  have hq : QInv s := by
-    subst h1
-    simp only [step] at hs
-    exact qinv_of_reachable hr (f3_mono hs hf3)
-  have := deqd_out hq.qi h4
-  exact ⟨⟨t, e, h1, h3, h2, h5⟩, this.1, this.2.1, this.2.2⟩
+  obtain ⟨t, e, h1, h2, h3, h4, h5, _⟩ := dies_facts hr hs hl hd'
+  have := deqd_out (qinv_of_reachable hr).qi h4
+  exact ⟨⟨t, e, h1, h3, h2, h5⟩, h4, this.1, this.2.1, this.2.2⟩
 
-/-- FULL statement (false): … and no waker whatsoever still has the record in hand. -/
-def C11_cleanup_full : Prop :=
-  ∀ (s s' : State) (ev : Event) (r : Rid), Reachable s → step s ev = .ok s' → registered s r → ¬ registered s' r →
-    (∀ o, r ∉ (s.obj o).queue) ∧ (∀ u, s.post u ≠ some r) ∧ (∀ u c l, wk (s.pc u) = some (c, l) → r ∉ l)
+/-- the statement at the return of a call whose records are on the caller's stack (count <= 4): none of them
+    is in a queue, between a signaller's unlink and clear, or in the hands of a note / counter waker.
+    (For count > 4 the records die at `free`: `C11_cleanup`.) -/
+theorem C11_cleanup_ret {s s' : State} {t : Tid} {i : Nat} {nested : Bool} (hr : Reachable s)
+    (hs : step s (.thr t (.retWaitN i nested)) = .ok s') (hh : (s.fr t).heap = none) :
+    ∀ r ∈ (s.fr t).recs, (∀ o, r ∉ (s.obj o).queue) ∧ (∀ u c l, wk (s.pc u) = some (c, l) → r ∉ pend (s.post u) l)
+      ∧ (∀ u, s.post u = some r → (wk (s.pc u)).isSome = true) := by
+  intro r hm
+  obtain ⟨hpc, hl, _⟩ := ret_facts hr hs
+  have hfz : (s.fr t).frees = 0 := by
+    rcases hl.2 with ⟨hf, _, _⟩ | ⟨hpost, _⟩
+    · exact hf.frees
+    · have h4 : ¬ 4 < (s.fr t).count := by
+        intro h4; have := hpost.heap; rw [hh] at this; simp [h4] at this
+      rw [hpost.frees, hpost.mallocs]; simp [h4]
+  have hlive := ((own_of_reachable hr).own t r (by rw [hpc]; rfl) hfz hm).1
+  have hdead : ¬ registered s' r := by
+    simp only [step, stepThr, hpc, stepRet] at hs
+    split at hs
+    · cases hs; simp [registered, hh, hm]
+    · simp at hs
+  have := C11_cleanup hr hs hlive hdead
+  exact ⟨this.2.2.1, this.2.2.2.1, this.2.2.2.2⟩
 
 /-- FULL statement of the oversleep property (NOT PROVED): a caller asleep in the semaphore whose call has a
     record with `waiting = 0` has a token to consume, or a waker is about to post it. -/
@@ -289,7 +304,7 @@ def C11_no_oversleep_full : Prop :=
   ∀ (s : State) (t : Tid) (j : SemId), Reachable s → s.pc t = .wPdWait j →
     (∃ r ∈ (s.fr t).recs, (s.rcd r).waiting = false) → 0 < s.sem j ∨ ∃ u r, s.post u = some r ∧ r ∈ (s.fr t).recs
 
-/-! ### non-vacuity and the witnesses of defect F3 -/
+/-! ### non-vacuity, and the interleaving of defect F3 before and after the repair -/
 
 namespace Example
 
@@ -334,7 +349,7 @@ def noteCtr : List Event :=
   ++ noteDeq 0 0 (.stk 0) 0 ++ ctrDeq0 0 0 (.stk 1)
 
 example : accepts (noteCtr ++ [.thr 0 (.retWaitN 1 false)]) = true := by decide
-/-- the hypotheses of `C11_index_ready_partial` are satisfiable (object 1 is a counter at zero) -/
+/-- the hypotheses of `C11_index_ready` are satisfiable (object 1 is a counter at zero) -/
 example : (final noteCtr).map (fun s => decide (s.pc 0 = .wRet 1 ∧ (s.obj (.ctr 0)).value = 0 ∧ (s.fr 0).deqRes = [true, false]))
     = some true := by decide
 /-- the same return with a wrong index is rejected -/
@@ -373,10 +388,10 @@ def cvWoken : List Event :=
   ++ [.thr 0 (.ld .acq (.waiting (.stk 4)) .cvDeq 0), .thr 0 (.st .rel (.cvWord 0) .cvDeq 0 1), .thr 0 (.annAcq 0)]
 
 example : accepts (cvWoken ++ [.thr 0 (.retWaitN 0 false)]) = true := by decide
-example : (final cvWoken).map (fun s => decide (s.pc 0 = .wRet 0 ∧ (s.rcd (.stk 4)).unl = .waker ∧ s.f3 = false)) = some true := by
+example : (final cvWoken).map (fun s => decide (s.pc 0 = .wRet 0 ∧ (s.rcd (.stk 4)).unl = .waker ∧ (s.fr 0).deqUnl = [.waker])) = some true := by
   decide
 
-/-! #### defect F3 -/
+/-! #### the window of defect F3 -/
 
 def r0 : Rid := .stk 0
 /-- t: nsync_wait_n ([cv 0]) up to the sleep: init, cv_enqueue, one scan, pd_enter on sem j (cv word w before) -/
@@ -388,68 +403,29 @@ def cvSleep (t : Tid) (r : Rid) (dl : Deadline) (j : SemId) (w : Nat) : List Eve
 def sigUnlink (u : Tid) : List Event :=
   [.thr u (.callSig 0 false), .thr u (.ld .acq (.cvWord 0) .sig 2)] ++ spin u 0 2
   ++ [.thr u (.st .rel (.cvWord 0) .sig 0 3)]
-/-- F3: the caller's deadline expires inside the window; cv_dequeue "removes" the record again -/
-def f3 : List Event :=
+/-- the caller's deadline expires inside the window; cv_dequeue takes the spinlock and reads `waiting == 1` -/
+def window : List Event :=
   cvSleep 0 r0 (some 500) 0 0 ++ sigUnlink 1 ++ [.tick 500, .thr 0 (.pdRet 0 true)] ++ spin 0 0 0
-  ++ [.thr 0 (.ld .acq (.waiting r0) .cvDeq 1), .thr 0 (.st .rlx (.waiting r0) .cvDeq 0 1),
-      .thr 0 (.st .rel (.cvWord 0) .cvDeq 0 1)]
-def f3ret : List Event := f3 ++ [.thr 0 (.retWaitN 1 false)]
-/-- stack reuse: the next call of thread 0 uses the same slot; the stale waker clears its `waiting` -/
-def reuse : List Event :=
-  f3ret ++ cvSleep 0 r0 none 0 0
-  ++ [.thr 1 (.st .rel (.waiting r0) .wake 0 1), .thr 1 (.semV 0), .thr 1 (.retSig false),
-      .thr 0 (.pdRet 0 false), .thr 0 (.ld .acq (.waiting r0) .cvRT 0)] ++ spin 0 0 2
-  ++ [.thr 0 (.ld .acq (.waiting r0) .cvDeq 0), .thr 0 (.st .rel (.cvWord 0) .cvDeq 2 3)]
-/-- the second window, without F3: the waker has cleared `waiting`, the caller times out, sees 0, returns;
-    the waker's post comes afterwards -/
-def window2 : List Event :=
-  cvSleep 0 r0 (some 500) 0 0 ++ sigUnlink 1 ++ [.thr 1 (.st .rel (.waiting r0) .wake 0 1), .tick 500, .thr 0 (.pdRet 0 true)]
-  ++ spin 0 0 0 ++ [.thr 0 (.ld .acq (.waiting r0) .cvDeq 0), .thr 0 (.st .rel (.cvWord 0) .cvDeq 0 1)]
+  ++ [.thr 0 (.ld .acq (.waiting r0) .cvDeq 1)]
+/-- the code before the repair: "remove" the record, report a timeout -/
+def oldF3 : List Event :=
+  window ++ [.thr 0 (.st .rlx (.waiting r0) .cvDeq 0 1)]
+/-- the repaired code (the first execution of corpus/C13/f3_waitn_cv.txt): the record is not on
+    pcv->waiters, release the spinlock, wait until the signaller has cleared `waiting`, return index 0;
+    the signaller's V comes after the return and touches no record -/
+def fixed : List Event :=
+  window ++ [.thr 0 (.st .rel (.cvWord 0) .cvDeq 0 1), .thr 0 (.ld .acq (.waiting r0) .cvDeq 1),
+             .thr 1 (.st .rel (.waiting r0) .wake 0 1), .thr 0 (.ld .acq (.waiting r0) .cvDeq 0)]
 
-example : accepts f3ret = true := by decide
-example : accepts (reuse ++ [.thr 0 (.retWaitN 0 false)]) = true := by decide
-example : accepts (window2 ++ [.thr 0 (.retWaitN 0 false), .thr 1 (.semV 0)]) = true := by decide
+example : accepts window = true := by decide
+example : accepts oldF3 = false := by decide
+example : accepts (fixed ++ [.thr 0 (.retWaitN 0 false), .thr 1 (.semV 0), .thr 1 (.retSig false)]) = true := by decide
+/-- … and it cannot report a timeout, nor return before the waker's store -/
+example : accepts (fixed ++ [.thr 0 (.retWaitN 1 false)]) = false := by decide
+example : accepts (fixed.dropLast.dropLast ++ [.thr 0 (.ld .acq (.waiting r0) .cvDeq 0)]) = false := by decide
+example : (final fixed).map (fun s => decide (s.pc 0 = .wRet 0 ∧ (s.fr 0).deqUnl = [.waker] ∧ (s.rcd r0).live = true
+    ∧ s.post 1 = some r0)) = some true := by decide
 
 end Example
-
-/-- F3, timeout form: the call returns `count` although a signaller had unlinked its record (the signal is
-    swallowed). -/
-theorem C11_timeout_full_false : ¬ C11_timeout_full := by
-  intro h
-  obtain ⟨s, hr, hp⟩ := final_spec (evs := Example.f3)
-    (P := fun s => okB (step s (.thr 0 (.retWaitN 1 false))) && decide ((s.fr 0).count = 1 ∧ Example.r0 ∈ (s.fr 0).recs
-      ∧ (s.rcd Example.r0).unl = .waker)) (by decide)
-  simp only [Bool.and_eq_true, decide_eq_true_eq] at hp
-  obtain ⟨s', hs'⟩ := okB_spec hp.1
-  exact h s s' 0 1 false hr hs' hp.2.1.symm Example.r0 hp.2.2.1 hp.2.2.2
-
-/-- F3 with stack reuse: the call returns index 0 (a cv) although no waker unlinked its record — the stale
-    waker of the previous call cleared `waiting` of the reused slot. -/
-theorem C11_index_ready_full_false : ¬ C11_index_ready_full := by
-  intro h
-  obtain ⟨s, hr, hp⟩ := final_spec (evs := Example.reuse)
-    (P := fun s => okB (step s (.thr 0 (.retWaitN 0 false))) && decide ((s.fr 0).objs = [.cv 0] ∧ (s.fr 0).recs = [Example.r0]
-      ∧ (s.rcd Example.r0).unl = .none)) (by decide)
-  simp only [Bool.and_eq_true, decide_eq_true_eq] at hp
-  obtain ⟨s', hs'⟩ := okB_spec hp.1
-  have := h s s' 0 0 false hr hs' (by simp [Frame.count, hp.2.1])
-  simp [readyFor, hp.2.1, hp.2.2.1, hp.2.2.2] at this
-
-/-- the second window: at the return a signaller is still between `waiting := 0` and its post. -/
-theorem C11_cleanup_full_false : ¬ C11_cleanup_full := by
-  intro h
-  obtain ⟨s, hr, hp⟩ := final_spec (evs := Example.window2)
-    (P := fun s => okB (step s (.thr 0 (.retWaitN 0 false))) && decide ((s.rcd Example.r0).live = true ∧ s.post 1 = some Example.r0
-      ∧ (s.fr 0).recs = [Example.r0] ∧ (s.fr 0).heap = none)) (by decide)
-  simp only [Bool.and_eq_true, decide_eq_true_eq] at hp
-  obtain ⟨s', hs'⟩ := okB_spec hp.1
-  have hdead : ¬ registered s' Example.r0 := by
-    have hpc := (ret_pc hs').1
-    simp only [step, stepThr, hpc, stepRet] at hs'
-    split at hs'
-    · cases hs'
-      simp [registered, hp.2.2.2.1, hp.2.2.2.2]
-    · simp at hs'
-  exact (h s s' _ Example.r0 hr hs' hp.2.1 hdead).2.1 1 hp.2.2.1
 
 end WaitN
